@@ -38,6 +38,11 @@ let rec parse_ops n toks acc =
   if n = 0 then (Stdlib.List.rev acc, toks) else
   match toks with
   | "D" :: k :: t -> let (ps, t') = parse_px (int_of_string k) t [] in parse_ops (n - 1) t' (DrawIter ps :: acc)
+  (* Pixel::draw, PixelIteratorExt::draw and .translated(d).draw are one draw_iter call each *)
+  | "P" :: x :: y :: c :: t -> parse_ops (n - 1) t (DrawIter [(pt x y, z_in c)] :: acc)
+  | "DI" :: k :: t -> let (ps, t') = parse_px (int_of_string k) t [] in parse_ops (n - 1) t' (DrawIter ps :: acc)
+  | "DT" :: dx :: dy :: k :: t ->
+      let (ps, t') = parse_px (int_of_string k) t [] in parse_ops (n - 1) t' (DrawIter (translate_pixels (pt dx dy) ps) :: acc)
   | "F" :: x :: y :: w :: h :: "L" :: k :: t ->
       let (cs, t') = take (int_of_string k) t in
       parse_ops (n - 1) t' (FillContiguous (rc x y w h, Fin (Stdlib.List.map z_in cs)) :: acc)
@@ -114,7 +119,20 @@ let tcrop args =
       list_out z_out (cropped_iter (Rep (z_in c)) { sw = z_in w; sh = z_in h } (rc cx cy cw ch))
   | _ -> "BAD-ARGS"
 
+(* ContiguousIteratorExt::into_pixels:  tinto <x y w h> L n c*n | G n a b | I c *)
+let tinto args =
+  match args with
+  | x :: y :: w :: h :: t ->
+      let cs = (match t with
+        | "L" :: n :: t -> Fin (Stdlib.List.map z_in (fst (take (int_of_string n) t)))
+        | ["G"; n; a; b] -> Fin (gen_stream (int_of_string n) (int_of_string a) (int_of_string b))
+        | ["I"; c] -> Rep (z_in c)
+        | _ -> failwith "bad stream") in
+      list_out (fun (p, c) -> z_out p.px ^ ":" ^ z_out p.py ^ ":" ^ z_out c) (into_pixels (rc x y w h) cs)
+  | _ -> "BAD-ARGS"
+
 let init () =
+  register "tinto" tinto;
   register "tstack" tstack;
   register "tcalls" tcalls;
   register "tcrop" tcrop
